@@ -119,7 +119,7 @@ class Host:
 NEST_SHAPES = [           # evaluated contexts inside a generated expression e (of type long)
     "((%(f)s), %(e)s)",
     "((%(e)s) + ((%(f)s), 0))",
-    "((%(e)s) ? ((%(f)s), 1L) : 2L)",
+    "((%(e)s) ? ((%(f)s), 1L) : ((%(f)s), 2L))",     # both arms: a constant condition drops one of them
     "(c10_id(((%(f)s), (long)(%(e)s))))",
     "((long)c10_arr[((%(f)s), 1)] + (%(e)s))",
 ]
